@@ -1,3 +1,4 @@
 ---- MODULE MCEnvDir0 ----
 EXTENDS EnvDir
+ShapesSmall == {<<"A">>, <<"A", "B">>, <<"B", "AB", "A">>, <<"A", "A">>}
 ====
